@@ -36,6 +36,7 @@ ASSUMPTIONS = ["'observably unchanged' is read as equality of the fingerprint li
 
 
 def derive(api, rng, convs, recs_of):
+    """-> (kind, outcome, inputs used, thunk that issues exactly the same call once more)"""
     import curies
 
     c = rng.choice(convs)
@@ -46,12 +47,15 @@ def derive(api, rng, convs, recs_of):
     if kind == "chain":
         k = rng.randint(1, len(convs))
         order = rng.sample(convs, k=k)
-        return kind, call(api.chain, order, case_sensitive=rng.random() < 0.6), order
+        cs = rng.random() < 0.6
+        again = lambda: call(api.chain, order, case_sensitive=cs)  # noqa: E731
+        return kind, again(), order, again
     if kind == "sub":
         P = rng.sample(allp, k=rng.randint(1, len(allp))) if allp else []
         if rng.random() < 0.2:
             P = rng.choice([p for p in allp if p] or ["ab"])  # a bare string: the iterable of its characters
-        return kind, call(c.get_subconverter, P), [c]
+        again = lambda: call(c.get_subconverter, P)  # noqa: E731
+        return kind, again(), [c], again
     if kind == "remap_curie":
         m = {}
         for _ in range(rng.randint(1, 3)):
@@ -60,7 +64,8 @@ def derive(api, rng, convs, recs_of):
         if rng.random() < 0.2:
             m = rng.choice(convs).synonym_to_prefix if hasattr(c, "synonym_to_prefix") else m
             probe.S.counters["wl:mapping-argument-is-a-live-attribute"] += 1
-        return kind, call(curies.remap_curie_prefixes, c, m), [c]
+        again = lambda: call(curies.remap_curie_prefixes, c, m)  # noqa: E731
+        return kind, again(), [c], again
     if kind == "remap_uri":
         m = {}
         for _ in range(rng.randint(1, 3)):
@@ -70,7 +75,8 @@ def derive(api, rng, convs, recs_of):
             other = rng.choice(convs)
             m = {u: "adopted/" + p for u, p in other.reverse_prefix_map.items()} if rng.random() < 0.5 else other.reverse_prefix_map
             probe.S.counters["wl:mapping-argument-is-a-live-attribute"] += 1
-        return kind, call(curies.remap_uri_prefixes, c, m), [c]
+        again = lambda: call(curies.remap_uri_prefixes, c, m)  # noqa: E731
+        return kind, again(), [c], again
     if kind == "rewire":
         m = {}
         for _ in range(rng.randint(1, 3)):
@@ -80,9 +86,12 @@ def derive(api, rng, convs, recs_of):
             # of a rewiring: "adopt that converter's URI prefixes"): aliasing must not let the call write into it
             m = rng.choice(convs).prefix_map
             probe.S.counters["wl:mapping-argument-is-a-live-attribute"] += 1
-        return kind, call(curies.rewire, c, m), [c]
+        again = lambda: call(curies.rewire, c, m)  # noqa: E731
+        return kind, again(), [c], again
     uris = [u + str(i) for u in (allu + ["http://d/", "http://d/x_"]) for i in range(2)]
-    return kind, call(curies.discover, uris, converter=c, cutoff=rng.choice([None, 1, 2])), [c]
+    cut = rng.choice([None, 1, 2])
+    again = lambda: call(curies.discover, uris, converter=c, cutoff=cut)  # noqa: E731
+    return kind, again(), [c], again
 
 
 def at_scale_case(ctx, g, rng):
@@ -117,16 +126,17 @@ def run_case(ctx, g, rng):
     # inputs with a past: constructed, registered record by record, or grown through merges (DESIGN 11.4)
     inputs = [gen.build(api, gconv(rng), ":", rng, share_lists=True)[0] for _ in range(rng.randint(1, 3))]
     before = [spec.snapshot(c) for c in inputs]
-    kind, o, used = derive(api, rng, inputs, before)
+    kind, o, used, again = derive(api, rng, inputs, before)
     S.counters[f"wl:derive:{kind}:{o[0]}"] += 1
     if o[0] == "raise":
         probe.note_key(f"{kind}:raised", False)
         return
-    d1 = o[1]
+    d1 = first = o[1]
+    first_records = spec.snapshot(first)
     effect = all(sorted(map(spec.norm, spec.snapshot(d1)), key=repr) != sorted(map(spec.norm, spec.snapshot(u)), key=repr) for u in used)
     second = None
     if rng.random() < 0.35:
-        second, o2, _ = derive(api, rng, [d1, *inputs], None)
+        second, o2, _, _ = derive(api, rng, [d1, *inputs], None)
         if o2[0] == "ret":
             d1 = o2[1]
     # follow-up steps on the derived converter, aimed at records it may share with an input
@@ -150,6 +160,22 @@ def run_case(ctx, g, rng):
         else:
             o = call(d1.add_prefix, newp + "x", newu + "x/")
         merged += o[0] == "ret"
+    if g % 2 == 0:
+        # the same derivation once more, with the same arguments, after the first result has been modified: "returns a
+        # new converter" - a derivation that hands out what it handed out before (seed C10-O: results memoised on the
+        # input) returns the caller's additions with it
+        o3 = again()
+        probe.evaluated("derivation-repeated-after-the-result-was-modified")
+        if o3[0] == "ret" and (o3[1] is first or spec.snapshot(o3[1]) != first_records):
+            probe.violation(["C10"], "derivation-repeated-after-the-result-was-modified",
+                      "repeated-derivation-returns-the-earlier-result-object" if o3[1] is first else "repeated-derivation-differs-from-the-first-although-the-inputs-are-unchanged",
+                      derivation=kind, first_result=[spec.rec_dict(r) for r in first_records],
+                      first_result_now=[spec.rec_dict(r) for r in spec.snapshot(first)],
+                      repeated_result=[spec.rec_dict(r) for r in spec.snapshot(o3[1])],
+                      inputs=[[spec.rec_dict(r) for r in b] for b in before])
+        elif o3[0] != "ret":
+            probe.violation(["C10"], "derivation-repeated-after-the-result-was-modified", "repeated-derivation-raises-although-the-first-succeeded",
+                      derivation=kind, observed=o3[1], inputs=[[spec.rec_dict(r) for r in b] for b in before])
     for c in inputs:  # a last look through the public API (monitored against the records)
         for r in spec.snapshot(c)[:2]:
             call(c.expand, r.prefix + ":1")
